@@ -91,6 +91,14 @@ diff section with content `-a\n` — a section the intact file does not contain 
 theorem C07_short_read_witness :
     ¬ ((readAll asciiEnv plainCfg 96 (intact.take (intact.length - 3))).1.map (·.content) <+:
        (readAll asciiEnv plainCfg 96 intact).1.map (·.content)) := by
-  decide
+  -- `Content` has no `DecidableEq`, so `decide` cannot be used: both runs are evaluated by `rfl`
+  have hcut : (readAll asciiEnv plainCfg 96 (intact.take (intact.length - 3))).1.map (·.content) =
+      [.container, .container, .container, .metadata (.obj []), .diff b!"-a\n"] := by rfl
+  have hfull : (readAll asciiEnv plainCfg 96 intact).1.map (·.content) =
+      [.container, .container, .container, .metadata (.obj []), .diff b!"-a\n+b\n"] := by rfl
+  rw [hcut, hfull]
+  intro h
+  have := h.eq_of_length rfl
+  simp at this
 
 end Diffx.C07
